@@ -91,6 +91,19 @@ def run(rep, tier):
                 rep.ob(rd, "opc=%#04x/%s" % (v, T.show(p["pc"])[:50]), not narrow,
                        "new pc of opcode %#04x" % v, expected="no trunc of a pc-derived term", found=T.show(p["pc"]))
 
+    # ... and the return address a local call saves for its matching exit
+    for v, d in sorted(isa.TABLE.items()):
+        if d["kind"] != "call":
+            continue
+        for p in im.per_opcode(v):
+            if p["exit"] is not None:
+                continue
+            for k, val in p["env"].items():
+                cv = im.canon(val)
+                if isinstance(cv, tuple) and cv and cv[0] == "upd" and _mentions_pc(cv):
+                    rep.ob(rd, "opc=%#04x/saved-pc" % v, not _narrowed_pc(cv), "pc-derived values the call arm saves for the return",
+                           expected="no trunc of a pc-derived term", found=[T.show(x)[:80] for x in _pc_truncs(cv)][:2] or "full width")
+
     # R01.f initial state
     rf = rep.rule("R01.f", "initial registers: r10 = stack top, r1 by the mbuff/mem/0 cascade, others 0; stack is 512 zero bytes", floor=1)
     ok, found = _initial_state(cx, im)
@@ -106,6 +119,17 @@ def _narrowed_pc(t):
     if t[0] == "trunc" and _mentions_pc(t[2]):
         return True
     return any(_narrowed_pc(x) for x in t if isinstance(x, tuple))
+
+
+def _pc_truncs(t):
+    out = []
+    if isinstance(t, tuple):
+        if t and t[0] == "trunc" and _mentions_pc(t[2]):
+            out.append(t)
+        for x in t:
+            if isinstance(x, tuple):
+                out.extend(_pc_truncs(x))
+    return out
 
 
 def _mentions_pc(t):
